@@ -130,7 +130,7 @@ func c12(tier string) []*explore.Scenario {
 	}
 	out = append(out, c12Interference(1), c12MethodNames(), c12MethodGrammar())
 	for _, end := range []string{"stop", "write-fails", "read-fails"} {
-		out = append(out, c12ResetsUnread(end, 2))
+		out = append(out, c12ResetsUnread("C12", end, 2))
 	}
 	for _, where := range []string{"fresh-id", "open-stream", "half-closed-stream"} {
 		out = append(out, c12Product(where, 1))
@@ -660,10 +660,13 @@ func c12MethodNames() *explore.Scenario {
 // and does NOT read the server's answers, so the resets queue up behind a
 // writer that is stuck in the transport; then the connection ends. No crash
 // (a second connection of the same Server keeps working), Serve returns.
-func c12ResetsUnread(end string, bound int) *explore.Scenario {
+func c12ResetsUnread(prop, end string, bound int) *explore.Scenario {
 	fam := "C12/hostile"
+	if prop != "C12" {
+		fam = prop + "/resets-unread"
+	}
 	return &explore.Scenario{
-		Name: "C12/resets-unread/end=" + end, Family: fam, Prop: "C12", Bound: bound,
+		Name: prop + "/resets-unread/end=" + end, Family: fam, Prop: prop, Bound: bound,
 		Run: func() {
 			w := env.NewWorld()
 			d := env.NewDirect(w, env.DirectOpts{Pipe: env.PipeOpts{Cap: 0}, NoClient: true})
@@ -708,11 +711,15 @@ func c12ResetsUnread(end string, bound int) *explore.Scenario {
 			if pu.HStarts != 1 {
 				vsched.Fail(fam+"|probe-unary", "after the first connection ended (%s) a valid request on a second connection of the same Server was not served", end)
 			}
+			d.Pipe.A.Break() // (releases the scripted peer if it is still offering an envelope)
 			p2.A.Break()
 			p2.B.Break()
 			vsched.Quiesce()
 			if !s2 {
 				vsched.Fail(fam+"|serve-hang", "the second connection's Serve did not return")
+			}
+			if ts := vsched.Threads(); len(ts) > 0 && d.ServeDone && s2 {
+				vsched.Fail(fam+"|goroutine-leak", "resets nobody read, then the connection ended (%s): after both Serve calls returned, goroutines remain: %s", end, threadList())
 			}
 		},
 	}
